@@ -334,8 +334,10 @@ func genC05(t *rapid.T) c05Case {
 		}
 	} else {
 		c.Modes = []string{"location"}
-		if _, isSwagger := mg.Docs[c.Base].(map[string]any)["title"]; !isSwagger {
-			c.Modes = append(c.Modes, "generic")
+		if dm, isObj := mg.Docs[c.Base].(map[string]any); isObj {
+			if _, isSchemaDoc := dm["title"]; !isSchemaDoc {
+				c.Modes = append(c.Modes, "generic")
+			}
 		}
 	}
 	return c
@@ -345,7 +347,9 @@ func TestC05(t *testing.T) {
 	r := rec("C05")
 	rapid.Check(t, func(t *rapid.T) {
 		c := genC05(t)
+		vstat.InFlight("C05", "resolve", c)
 		f, info := oracleC05(c)
+		vstat.ClearInFlight("C05")
 		r.Eval()
 		r.Count("resolutions", len(c.Modes))
 		r.Label("kind=" + c.Kind)
